@@ -163,6 +163,20 @@ def m_mem_replace(it, st, fr, t, args, ga):
     return old
 
 
+def m_mem_take(it, st, fr, t, args, ga):
+    """core::mem::take(&mut x) = replace(x, Default::default()) for the primitive types"""
+    ref = args[0]
+    old = it.deref(st, ref)
+    if isinstance(old, I.BoolV):
+        new = I.BoolV(FALSE)
+    elif isinstance(old, I.Num):
+        new = I.Num(ZERO, old.ty)
+    else:
+        raise I.InterpError('mem::take of %r' % (old,))
+    it.store_ref(st, ref, new)
+    return old
+
+
 # ---------------------------------------------------------------- Option / Result
 
 def _known_variant(e):
@@ -1094,6 +1108,7 @@ def registry():
         'libm::F32Ext::tan': m_tan,
         '<f32 as libm::F32Ext>::tan': m_tan,
         'core::mem::replace': m_mem_replace,
+        'core::mem::take': m_mem_take,
         'core::option::Option::<T>::unwrap_or': m_unwrap_or,
         'core::option::Option::<T>::unwrap': m_option_unwrap,
         'core::result::Result::<T, E>::ok': m_result_ok,
